@@ -144,8 +144,48 @@ def r15d(ctx):
                nontrivial=False)
 
 
+def r15e(ctx):
+    """The exported pattern tuples of cost/pattern.py name distinct patterns: no two public
+    names denote the same (layer type, constraint) pair — registering a function under each
+    of two aliases of one pattern makes the lookup raise a conflict for every layer that
+    matches it, and leaves the layer type the second name promises without its entry — and
+    the layer type a tuple is filed under is the one its name announces (Conv1d* / Conv2d* /
+    Linear*)."""
+    repo = ctx.repo
+    mod = repo.modules['plinio.cost.pattern']
+    tuples = {}
+    for name, sts in mod.assigns.items():
+        for st in sts:
+            v = getattr(st, 'value', None)
+            if isinstance(v, ast.Tuple) and len(v.elts) == 2:
+                tuples[name] = (ast.unparse(v.elts[0]), ast.unparse(v.elts[1]), st.lineno)
+    ctx.floor('R15e', 'pattern tuples', len(tuples), 7)
+    by_val = {}
+    for name, (ty, cn, ln) in sorted(tuples.items()):
+        by_val.setdefault((ty, cn), []).append(name)
+    for (ty, cn), names in sorted(by_val.items()):
+        ok = len(names) == 1
+        ctx.ob('R15e', f'pattern ({ty}, {cn}) has one name', ok,
+               names[0] if ok else
+               f'{names} all denote ({ty}, {cn}): a specification that registers a function for '
+               f'each of them files two entries of the same constraint under {ty} (every '
+               f'matching layer raises "conflicting cost models") and nothing under the layer '
+               f'type the other name stands for', f'{mod.relpath}:{tuples[names[0]][2]}')
+    for name, (ty, cn, ln) in sorted(tuples.items()):
+        announced = [k for k in ('Conv1d', 'Conv2d', 'Conv3d', 'Linear') if name.startswith(k)]
+        if not announced:
+            continue
+        ok = ty.split('.')[-1] == announced[0]
+        ctx.ob('R15e', f'{name} is filed under the layer type it names', ok,
+               ty if ok else
+               f'{name} = ({ty}, {cn}): entries registered with this pattern are looked up for '
+               f'{ty} layers, never for nn.{announced[0]} ones', f'{mod.relpath}:{ln}',
+               nontrivial=False)
+
+
 def run(ctx):
     r15d(ctx)
+    r15e(ctx)
     repo = ctx.repo
     ci = repo.cls('CostSpec')
     init, setitem, getitem = (_class_fn(ci, n) for n in ('__init__', '__setitem__', '__getitem__'))
